@@ -218,6 +218,21 @@ let dispatch (op : string) (args : jv list) : jv =
       JList [
         jlist (fun t -> JList [t; of_res jcodes (check_at ops close g n0 c pm (num_arg t))]) times;
         jlist (fun b -> JList [b; of_res jcodes (check_moves_at ops close same g n0 c pm (num_arg b))]) bounds ]
+  | "from_ms", [c; n0; names] ->
+      let names = (match names with JNull -> None | JList l -> Some (List.map str_arg l) | _ -> failwith "names") in
+      of_res jgraph (from_ms ops (cmd_of_jv c) (num_arg n0) names)
+  | "ms_doc", [c; n0] -> of_res (fun x -> x) (build_doc ops (cmd_of_jv c) (num_arg n0))
+  | "ms_state", [c; t] ->
+      (* the ms state in force at time t and the lineage movements at exactly t (ms units) *)
+      let c = cmd_of_jv c and t = num_arg t in
+      let same a b = ops.neqb a b in
+      (match ms_at ops c t, ms_moves ops same c t with
+       | Ok s, Ok p ->
+           okv (JList [
+             jlist (fun pp -> JList [JNum (ms_size_of ops pp t); JNum pp.mp_alpha; jbool (alive ops pp)]) s.st_pops;
+             jlist (jlist jnum) (norm_mig ops s);
+             jlist (jlist jnum) p])
+       | Err e, _ | _, Err e -> errv e)
   | "close", [a; b; r; t] ->
       jbool (close_graph ops (num_arg r) (num_arg t) (graph_arg a) (graph_arg b))
   | _ -> failwith ("unknown op " ^ op)
